@@ -38,7 +38,7 @@ CLAIM = {
             "but the presence (Some / non-empty / enum variant) of the very tree data it delivers and holds whenever that data is present "
             "(truth table over the classified atoms of all enclosing if / if-let / match-arm / let-else / early-exit / loop-exit conditions), "
             "and no element-dropping or reordering iterator adaptor stands between a tree collection and its replay loop: a replay can neither "
-            "be skipped nor spuriously opened because of a sibling field.",
+            "be skipped nor spuriously opened because of a sibling field. (R17.6) no shortcut exit in the visitor-driving functions of the byte reader; (R17.5) emptiness of an Option<collection> field is not a presence test (Some(empty) is replayed).",
     "note": "Not decided: that a parse arm consumes exactly attribute_length bytes on malformed input, the relative ORDER of events (reader "
             "and accept differ by design), label/frame values, equality of the replayed tree with the original (needs value reasoning), "
             "that a present-but-empty annotations attribute is replayed. Trusted: rustc HIR/typeck/const-eval; spec/c17.json and "
